@@ -90,6 +90,9 @@ def gen_cases(rng, n):
         p['Construction Years'] = rng.choice([1, 1, 2, 3, 7, 14])
         p['Fixed Internal Rate'] = rng.choice([0.0, 3.5, 6.25, 10, 30])
         p['Discount Initial Year Cashflow'] = rng.choice([True, False])
+        if rng.random() < 0.35:
+            del p['Fixed Internal Rate']          # only the discount rate is stated: every NPV of the run is at that rate
+            p['Discount Rate'] = rng.choice([0.03, 0.05, 0.12])
         p['Drawdown Parameter'] = rng.choice([0.0, 0.005, 0.02])
         for prod, a_, b_ in (('Electricity', 0.055, 0.15), ('Heat', 0.02, 0.08), ('Cooling', 0.03, 0.1)):
             if rng.random() < 0.7:
@@ -172,7 +175,7 @@ def evaluate(chk: core.Check, cases):
         if 'addon' in r:
             ad = r['addon']
             cf = ad['ProjectCashFlow']
-            lines.append(f'npv an{k} r={core.frac(ad["r"])} cf={core.fracs(([0.0] if ad["excel"] else []) + cf)}')
+            lines.append(f'npv an{k} r={core.frac(a["r"])} cf={core.fracs(([0.0] if ad["excel"] else []) + cf)}')   # one project, one discount rate: the base economics' rate
             lines.append(f'payback ap{k} cum={core.fracs(ad["AddOnCummCashFlow"])}')
             if ad['ProjectIRR'] != 0 and math.isfinite(ad['ProjectIRR']) and ad['ProjectIRR'] > -0.999:
                 lines.append(f'npv ai{k} r={core.frac(ad["ProjectIRR"])} cf={core.fracs(cf)}')
@@ -197,6 +200,17 @@ def evaluate(chk: core.Check, cases):
         if not series_ok(py['TotalCummRevenue'], cum):
             chk.fail('C04/cashflow/cumulative', 'reported cumulative cash flow is not the running sum of the yearly cash flow',
                      {**base, 'reported': py['TotalCummRevenue'], 'documented': [float(x) for x in cum]})
+        # per-product columns: revenue = energy sold x price / 1e6 in operating years, nothing during construction (exact rational evaluation of revenue_def)
+        sold = {'Elec': a['sells'] in ('elec', 'both'), 'Heat': a['sells'] in ('heat', 'both'), 'Cooling': a['sells'] == 'cool'}
+        for prod, en, pr in (('Elec', a['net'], a['pe']), ('Heat', a['heat'], a['ph']), ('Cooling', a['cool'], a['pc'])):
+            rev = py.get(f'{prod}Revenue')
+            if not isinstance(rev, list) or len(rev) != a['cy'] + a['L']:
+                continue
+            want = [Fraction(0)] * a['cy'] + [(Fraction(en[i]) * Fraction(pr[i]) / 1000000 if sold[prod] else Fraction(0)) for i in range(a['L'])]
+            chk.tag(f'product-revenue/{prod}/' + ('sold' if sold[prod] else 'not-sold'))
+            if not all(core.close(x, y, 1e-9, scale=scale) for x, y in zip(rev, want)):
+                chk.fail(f'C04/revenue/{prod}', f'reported annual {prod} revenue is not energy sold x price (and nothing during construction)',
+                         {**base, 'reported': rev, 'documented': [float(x) for x in want]})
         npv = core.parse_rat(kv['npv'])
         if not core.close(py['ProjectNPV'], npv, 1e-9, scale=scale):
             chk.fail('C04/npv', 'reported NPV is not the discounted sum of the reported cash flow at the stated rate and convention',
@@ -270,7 +284,8 @@ def evaluate(chk: core.Check, cases):
             if h3 == 'ok':
                 v = core.parse_rat(kv3['npv'])
                 if not core.close(ad['ProjectNPV'], v, 1e-9, scale=asc):
-                    chk.fail('C04/addon/npv', 'add-on project NPV is not the discounted sum of its cash flow', {**base, 'reported': ad['ProjectNPV'], 'documented': float(v)})
+                    chk.fail('C04/addon/npv', 'add-on project NPV is not the sum of its cash flow discounted at the project\'s discount rate', {**base, 'reported': ad['ProjectNPV'], 'documented': float(v),
+                             'project_rate': a['r'], 'rate_held_by_addon_object': ad['r']})
                 if ad['AdjustedProjectCAPEX'] != 0 and not core.close(ad['ProjectVIR'], 1 + v / Fraction(ad['AdjustedProjectCAPEX']), 1e-9, scale=max(1.0, asc / abs(ad['AdjustedProjectCAPEX']))):
                     chk.fail('C04/addon/vir', 'add-on project VIR is not 1 + NPV/adjusted CAPEX', {**base, 'reported': ad['ProjectVIR']})
             den2 = ad['AdjustedProjectCAPEX'] + ad['AdjustedProjectOPEX'] * a['L']
